@@ -903,16 +903,6 @@ func (wallet *Wallet) ProcWalletSetPasswd(Passwd *types.ReqWalletSetPasswd) erro
 	if !isValidPassWord(Passwd.NewPass) {
 		return types.ErrInvalidPassWord
 	}
-	//保存钱包的锁状态，需要暂时的解锁，函数退出时再恢复回去
-	tempislock := atomic.LoadInt32(&wallet.isWalletLocked)
-	//wallet.isWalletLocked = false
-	atomic.CompareAndSwapInt32(&wallet.isWalletLocked, 1, 0)
-
-	defer func() {
-		//wallet.isWalletLocked = tempislock
-		atomic.CompareAndSwapInt32(&wallet.isWalletLocked, 0, tempislock)
-	}()
-
 	// 钱包已经加密需要验证oldpass的正确性
 	if len(wallet.Password) == 0 && wallet.EncryptFlag == 1 {
 		isok := wallet.walletStore.VerifyPasswordHash(Passwd.OldPass)
@@ -941,7 +931,12 @@ func (wallet *Wallet) ProcWalletSetPasswd(Passwd *types.ReqWalletSetPasswd) erro
 		return err
 	}
 	//使用old密码解密seed然后用新的钱包密码重新加密seed
-	seed, err := wallet.getSeed(Passwd.OldPass)
+	//钱包的锁状态保持不变: 直接从数据库读取seed, 不经过要求钱包已解锁的wallet.getSeed
+	if has, _ := wallet.walletStore.HasSeed(); !has {
+		walletlog.Error("ProcWalletSetPasswd", "getSeed err", types.ErrSaveSeedFirst)
+		return types.ErrSaveSeedFirst
+	}
+	seed, err := GetSeed(wallet.walletStore.GetDB(), Passwd.OldPass)
 	if err != nil {
 		walletlog.Error("ProcWalletSetPasswd", "getSeed err", err)
 		return err
